@@ -31,6 +31,11 @@ def gen(rng, tier):
         ns = [rng.choice([0, 1, 2, 3, 4, 100, 1011, 1012, 1013, 1014, 2024, rng.randrange(1, 1500)]) for _ in range(k)]
         cut = rng.choice([None, None, rng.randrange(0, BLK * 4)])
         cases.append({'kind': 'reads', 'n': n, 'cut': cut, 'ns': ns})
+    # a file that ends inside a block: every position of the end relative to the payload / trailer boundary
+    for kblk in range(0, 4):
+        for d in (1, 2, 3, 1010, 1011, 1012, 1013):
+            for ns in ([0], [1] * 5 + [0], [B, 0], [d, 0], [max(1, d - 1), 1, 1, 1], [rng.randrange(1, 3000) for _ in range(4)] + [0]):
+                cases.append({'kind': 'reads', 'n': 5 * B, 'cut': kblk * BLK + d, 'ns': ns})
     # one-shot unblock: inverse of blocking, every truncation class, every trailer corruption
     for n in sorted(set([0, 1, 1011, 1012, 1013, 2024, 2025, 3036] + [rng.randrange(0, 3100) for _ in range(15 if tier == 'quick' else 200)])):
         cases.append({'kind': 'inv', 'n': n})
